@@ -1194,8 +1194,8 @@ func c15SubscribeDuringWrites(c *fw.Case, attempts int) {
 func init() {
 	kinds := []string{"v2/transaction", "v2/proposal", "v2/configuration", "v3/configuration", "v3/transaction"}
 	fw.Register(&fw.Check{ID: "C15", Level: "exploration", Race: true,
-		Technique: "runtime monitoring under the Go race detector: concurrent create / get / update / update-status / watch / cancel histories by 4..7 client goroutines on 2..3 store objects of one Atomix cluster; porcupine linearizability check per key against a versioned compare-and-set register (unique tags identify writes); version / index monotonicity; counted watcher-completeness drain; abandoned and cancelled consumers",
-		Rule:      "each case = one history of ~300 operations on 3..5 keys for one store kind (v2 transaction, proposal, configuration; v3 configuration) or one v3 transaction-store scenario (per-target logs, racing status updates, List across targets, cancel while events flow); every tenth case is an in-vivo history of the whole system under the race detector (watcher completeness of the controllers' own watchers, race reports); distinct_nontrivial = distinct (store, keys, clients, store objects) shapes",
+		Technique: "runtime monitoring under the Go race detector: concurrent create / get / update / update-status / watch / cancel histories by 4..7 client goroutines on 2..3 store objects of one Atomix cluster; porcupine linearizability check per key against a versioned compare-and-set register (unique tags identify writes); version / index monotonicity; counted watcher-completeness drain; abandoned and cancelled consumers; replay-race rounds (watchers with replay and a slow consumer subscribe while a writer makes the last write to every record)",
+		Rule:      "each case = one history of ~300 operations on 3..5 keys for one store kind (v2 transaction, proposal, configuration; v3 configuration, transaction), or 10 replay-race rounds for each of the five store kinds, or one v3 transaction-store scenario (per-target logs, racing status updates, List across targets, cancel while events flow); every tenth case is an in-vivo history of the whole system under the race detector (watcher completeness of the controllers' own watchers, race reports); distinct_nontrivial = distinct (store, keys, clients, store objects) shapes",
 		Assumptions: []string{"the Atomix in-memory test runtime is a faithful Atomix; watchers subscribed before the writers start are given 150 ms to register on every partition (the Atomix client returns from Events after the first partition's acknowledgement)",
 			"an operation that failed with an error other than conflict / already-exists / not-found is left out of the history (it may or may not have taken effect); none was observed in development"},
 		DistinctSet: "history_shape", CaseTimeout: 300e9,
